@@ -5,6 +5,9 @@ import MosnVerif.Lemmas.FrameH2
 import MosnVerif.Lemmas.FrameHpack
 import MosnVerif.Lemmas.HpackAt
 import MosnVerif.Lemmas.H2Lock
+import MosnVerif.Lemmas.DispatchLoop
+import MosnVerif.Model.DispatchCodec
+import MosnVerif.Lemmas.PoolRecover
 /-!
 # C08 — malformed input is contained (property theorems only)
 
@@ -249,5 +252,110 @@ example : MosnVerif.Model.FrameHpack.readVarInt 7 [0x7f, 0x83, 0x01] = .ok 258 [
 example : MosnVerif.Model.FrameHpack.readVarInt 7 [0x7f,0x80,0x80,0x80,0x80,0x80,0x80,0x80,0x80,0x80,0x01] = .overflow := by decide
 example : MosnVerif.Model.FrameHpack.decodeFull 0 [0x10, 1, 97, 2, 98, 99] = .ok [(1, 2)] := by decide
 example : MosnVerif.Model.FrameHpack.decodeFull 0 [0x10, 1, 97, 0x7f, 0xff, 0xff, 0x03, 98] = .err := by decide
+
+/-! ## No unbounded loop: the decode loop of `streamConn.Dispatch` (control structure regenerated: Gen/C08Loop) -/
+section dispatch
+open MosnVerif.Model.DispatchLoop MosnVerif.Lemmas.DispatchLoop
+
+/-- the loop as written returns after an empty buffer, need-more, a decode error (behind handleError) and a frame of
+the wrong Go type; it goes round again only after a frame -/
+theorem dispatch_policy_safe : xPolicy.Safe ∧ xPolicy.againFrame = true ∧ MosnVerif.Gen.C08Loop.decodesEmpty = 0 ∧
+    MosnVerif.Gen.C08Loop.errorHandled = true := by decide
+
+/-- **dispatch_terminates**: for EVERY read buffer and EVERY decoder whose successes drain at least one byte, one
+`Dispatch` returns (the small-step loop has a terminating run: the buffer length is the variant), after at most
+`|buffer|` (hence `≤ |buffer| + 1`) Decode calls, and it never grows the buffer. -/
+theorem dispatch_terminates (dec : List UInt8 → DStep) (hd : Progress dec) (b : List UInt8) :
+    ∃ c', Returns xPolicy dec ⟨b, 0⟩ c' ∧ c'.calls ≤ b.length ∧ c'.calls ≤ b.length + 1 ∧ c'.buf.length ≤ b.length := by
+  obtain ⟨c', hr, hc, hl⟩ := run_terminates xPolicy dec dispatch_policy_safe.1 hd b.length ⟨b, 0⟩ (Nat.le_refl _)
+  refine ⟨c', run_sound _ _ _ _ _ hr, ?_, ?_, hl⟩ <;> simp at hc <;> omega
+
+/-- the executable loop the driver runs needs no more fuel than `|buffer| + 1` -/
+theorem dispatch_run_total (dec : List UInt8 → DStep) (hd : Progress dec) (b : List UInt8) :
+    (run xPolicy dec (b.length + 1) ⟨b, 0⟩).isSome = true := by
+  obtain ⟨c', hr, _⟩ := run_terminates xPolicy dec dispatch_policy_safe.1 hd b.length ⟨b, 0⟩ (Nat.le_refl _)
+  simp [hr]
+
+/-- **error_ends_dispatch**: a failed Decode is the LAST Decode call of that Dispatch (zero further calls), whatever
+it drained — in particular when it drained nothing (bolt unknown command type, dubbo / thrift / tars decodeFrame). -/
+theorem error_ends_dispatch (dec : List UInt8 → DStep) (c : Cfg) (k : Nat) (hne : c.buf.isEmpty = false)
+    (he : dec c.buf = .error k) : Returns xPolicy dec c ⟨c.buf.drop k, c.calls + 1⟩ := by
+  have h2 : (turn xPolicy dec c).2 = false := by simp [turn, hne, he]; decide
+  have h1 : (turn xPolicy dec c).1 = ⟨c.buf.drop k, c.calls + 1⟩ := by simp [turn, hne, he]
+  have := Returns.done (p := xPolicy) (dec := dec) (c := c) h2
+  rwa [h1] at this
+
+/-- every modelled codec (checked-access decoders of bolt, boltv2, dubbo, dubbothrift, tars; every payload oracle)
+is a decoder `dispatch_terminates` applies to -/
+theorem codecs_progress (proto : String) (oracle : Bytes → Bool) (chk : Bytes → Res) (h : chkOf proto oracle = some chk) :
+    Progress (decOf chk) := by
+  intro b n hb
+  unfold decOf at hb
+  cases ho : (chk b).out with
+  | needMore => simp [ho, ofOut] at hb
+  | error k => simp [ho, ofOut] at hb
+  | oob => simp [ho, ofOut] at hb
+  | frame m =>
+    simp [ho, ofOut] at hb
+    subst hb
+    exact ((no_overread proto oracle chk h b).1 m ho).1
+
+/-- negation witness: a loop that CONTINUES behind handleError never returns on a decoder whose failure drains
+nothing (one buffered byte suffices): the configuration repeats for ever -/
+theorem continue_after_error_diverges :
+    ¬ ∃ c', Returns { xPolicy with againError := true } (fun _ => DStep.error 0) ⟨[1], 0⟩ c' := by
+  rintro ⟨c', h⟩
+  exact fixed_point_diverges { xPolicy with againError := true } (fun _ => DStep.error 0) [1]
+    (fun k => by simp [turn]) _ _ h rfl
+
+-- non-vacuity: a pipelined buffer (two 3-byte frames, then a failure that drains nothing) — 3 calls, 2 bytes left
+example : run xPolicy (fun b => if b.length > 2 then .frame 3 else .error 0) 9 ⟨[1,2,3,4,5,6,7,8], 0⟩
+    = some ⟨[7,8], 3⟩ := by decide
+example : Progress (fun b => if b.length > 2 then DStep.frame 3 else .error 0) := by
+  intro b n h
+  have h' : (if b.length > 2 then DStep.frame 3 else DStep.error 0) = DStep.frame n := h
+  split at h' <;> simp at h'; omega
+-- the same script under continue-after-error burns all its fuel
+example : run { xPolicy with againError := true } (fun b => if b.length > 2 then .frame 3 else .error 0) 50
+    ⟨[1,2,3,4,5,6,7,8], 0⟩ = none := by decide
+end dispatch
+
+/-! ## No panic escapes: every goroutine a read turn may run in recovers (tables regenerated: Gen/C08Recover) -/
+section recover
+open MosnVerif.Model.PoolRecover MosnVerif.Lemmas.PoolRecover MosnVerif.Gen.C08Recover
+
+/-- **panic_contained**: for each of `Schedule`, `ScheduleAlways`, `ScheduleAuto`, EVERY pool state at every select
+statement (worker parked or not, slot free or not — including the saturated pool) and WHICHEVER ready clause Go picks,
+the goroutine the task runs in has a recover: a panicking task never ends the process. -/
+theorem panic_contained (name : String) (api : Selects) (h : apiOf name = some api) (st : Nat → PoolState) :
+    ∀ a ∈ outcomes st 0 api, survives a = true := by
+  have hall : allSurvive api = true := by
+    unfold apiOf at h
+    split at h
+    · cases h; decide
+    · split at h
+      · cases h; decide
+      · split at h
+        · cases h; decide
+        · cases h
+  exact outcomes_survive st api 0 hall
+
+/-- the netpoll read turn (eventloop.go readCallback: onRead → filters → Dispatch → Decode) goes through a pool method
+that is in the table, and the non-netpoll read and write loops are started with a recover -/
+theorem read_path_contained :
+    (netpollTaskRecovers = true ∨ ∃ api, apiOf netpollReadVia = some api ∧ allSurvive api = true) ∧
+    (∀ l ∈ rwLoops, l.2 = true) ∧ ("startReadLoop", true) ∈ rwLoops := by
+  refine ⟨Or.inr ⟨scheduleAuto, by decide, by decide⟩, by decide, by decide⟩
+
+-- the saturated pool: Schedule blocks, ScheduleAlways / ScheduleAuto use the temporary goroutine
+example : verdicts schedule ⟨false, false⟩ = ["blocked"] := by decide
+example : verdicts scheduleAuto ⟨false, false⟩ = ["survived"] := by decide
+example : verdicts scheduleAlways ⟨true, true⟩ = ["survived", "survived"] := by decide
+example : verdicts scheduleAuto ⟨false, true⟩ = ["survived"] := by decide
+-- negation witness: the same table with a bare `go task()` in the default clause loses the process when saturated
+example : (outcomes (fun _ => ⟨false, false⟩) 0
+    [[("work", "handoff"), ("default", "none")], [("work", "handoff"), ("sem", "spawn"), ("default", "bare")]]).map survives
+    = [false] := by decide
+end recover
 
 end MosnVerif.Props.C08
